@@ -116,7 +116,7 @@ let sev = function
   | ENew t -> Printf.sprintf "new %d" (zi t)
   | ERunBegin (t, b) -> Printf.sprintf "runbegin %d %s" (zi t) (sb b)
   | ERunRet b -> "runret " ^ sb b
-  | EDropBegin -> "dropbegin" | EDropFields -> "dropfields" | EDropEnd -> "dropend" | EEpilogue -> "epilogue"
+  | EDropBegin -> "dropbegin" | EDropFields -> "~dropfields" | EDropEnd -> "dropend" | EEpilogue -> "epilogue"
   | EClo (u, c) -> Printf.sprintf "clo %d %d" (i u) (i c)
   | ESub (q, u) -> Printf.sprintf "sub %s %d" (sq q) (i u)
   | ERun (u, n) -> Printf.sprintf "run %d %d" (i u) (zi n)
@@ -159,7 +159,7 @@ let pev (ws : string list) : ev option =
   | ["new"; t] -> Some (ENew (z t))
   | ["runbegin"; t; i] -> Some (ERunBegin (z t, b i))
   | ["runret"; x] -> Some (ERunRet (b x))
-  | ["dropbegin"] -> Some EDropBegin | ["dropfields"] -> Some EDropFields
+  | ["dropbegin"] -> Some EDropBegin | ["~dropfields"] -> Some EDropFields
   | ["dropend"] -> Some EDropEnd | ["epilogue"] -> Some EEpilogue
   | ["clo"; u; c] -> Some (EClo (n u, n c))
   | ["sub"; q; u] -> Some (ESub (pq q, n u))
